@@ -20,7 +20,8 @@ PROP = "C09"
 LEVEL = "exploration"
 ENGINE = "enum"
 RULE = ("every expression of the typed lattice (depth 1: every node kind over leaves; depth 2: every node kind with one depth-1 child "
-        "and siblings from leaves + core conditionals; depth 3: every node kind over one depth-2 child that nests a conditional) x all "
+        "and siblings from leaves + core conditionals; depth 3: every node kind over one depth-2 child that nests a conditional; "
+        "conditionals whose condition is a chain of 2-3 nested conditionals with constant arms of both polarities / non-constant arms) x all "
         "valuations x memory alphabet; distinct = expression; non-trivial = possible_values returns more than one alternative")
 LEVEL_TEXT = ("Bounded-exhaustive: possible_values on every expression of an enumerated depth<=3 lattice in which conditionals sit in every "
               "syntactic position, judged against the reference evaluator under every valuation of the identifiers (all values for widths "
@@ -125,6 +126,45 @@ def core_conds(full):
     return out
 
 
+def cond_chains(thorough):
+    """ExprCond whose CONDITION is a chain of 1..3 nested conditionals ("wrappers") around an inner condition.
+    Wrappers of widths 1, 2, 3 with constant arms of both polarities (non-zero/zero, zero/non-zero, both non-zero,
+    both zero) and with non-constant arms; every sequence of wrappers; the root's arms are leaves or a conditional.
+    Also the chain as an operand, a slice argument, a composition part and a memory pointer."""
+    wr = [(I(1, 1), I(0, 1)), (I(0, 1), I(1, 1)), (I(5, 3), I(0, 3)), (I(0, 3), I(7, 3)), (I(0, 2), I(3, 2)), (I(1, 3), I(4, 3)),
+          (I(0, 1), I(0, 1)), (V("d1", 1), I(0, 1)), (I(0, 3), V("y3", 3)), (V("x3", 3), V("y3", 3))]
+    wr_q = wr[:6] + wr[7:9]
+    inner = [V("c1", 1), V("x3", 3), ("op", "&", V("x2", 2), V("y2", 2))]
+    arms = [(V("x3", 3), V("y3", 3)), (I(5, 3), V("x3", 3)), (V("c1", 1), I(1, 1))]
+    out = []
+
+    def wrap(c, w):
+        return ("cond", c, w[0], w[1])
+
+    for a in inner:
+        for w1 in wr:
+            c1_ = wrap(a, w1)
+            for w2 in wr:
+                c2 = wrap(c1_, w2)
+                for b, c in arms:
+                    out.append(("cond", c2, b, c))
+                for w3 in (wr if thorough else wr_q):
+                    if not thorough and a is not inner[0] and w1 not in wr_q:
+                        continue
+                    c3 = wrap(c2, w3)
+                    for b, c in (arms if thorough else arms[:1]):
+                        out.append(("cond", c3, b, c))
+                # the chain in other positions / a conditional arm
+                root = ("cond", c2, V("x3", 3), I(5, 3))
+                out.append(("op", "+", root, V("y3", 3)))
+                out.append(("slice", root, 1, 3))
+                out.append(("compose", V("c1", 1), root))
+                out.append(("mem", root, 8))
+                out.append(("cond", V("d1", 1), root, V("y3", 3)))
+                out.append(("cond", c2, ("cond", c1_, V("x3", 3), I(1, 3)), V("y3", 3)))
+    return out
+
+
 def lattice(thorough):
     """list of (depth-class, spec), duplicate-free, simplest first"""
     L, Lr = LEAVES, LEAVES_R
@@ -148,6 +188,11 @@ def lattice(thorough):
                 if s not in seen:
                     seen.add(s)
                     out.append(s)
+    # conditions that are themselves conditionals (chains of depth 2 and 3 in the condition position)
+    for s in cond_chains(thorough):
+        if s not in seen:
+            seen.add(s)
+            out.append(s)
     # assignments (possible_values looks through them)
     for w in (3, 8):
         for s in d2c_all[w][: (40 if thorough else 12)]:
@@ -374,7 +419,8 @@ def run(ctx):
         "exhaustive": True,
         "execution": how,
         "bounds": {"max_depth": 3, "widths": list(WIDTHS), "ops": list(OPS), "p8_values": P8_VALUES, "memories": [m[0] for m in MEMS],
-                   "expressions": len(lat)},
+                   "expressions": len(lat),
+                   "condition_chains": len(cond_chains(thorough))},
         "expressions_by_depth": by_depth,
         "valuations_judged": sum(r["evals"] for r in res),
         "alternatives_total": sum(r["alts"] for r in res),
